@@ -12,8 +12,8 @@ cd /verif
 : > seeded/$S/caught.txt
 echo "tree: /repo $(git -C /repo rev-parse --short HEAD) + seeded/$S/patch.diff" >> seeded/$S/caught.txt
 for Q in $P "$@"; do
-  EMINUS_REPO=$WT ./check $Q --no-evidence > /tmp/catch_$S_$Q.log 2>&1; RC=$?
+  EMINUS_REPO=$WT ./check $Q --no-evidence > /tmp/catch_${S}_$Q.log 2>&1; RC=$?
   echo "check $Q: exit $RC" >> seeded/$S/caught.txt
-  grep "^VIOLATION\|^UNDECIDED" /tmp/catch_$S_$Q.log | sed 's#/verif/replays/##' >> seeded/$S/caught.txt
+  grep "^VIOLATION\|^UNDECIDED" /tmp/catch_${S}_$Q.log | sed 's#/verif/replays/##' >> seeded/$S/caught.txt
 done
 cd $WT && git checkout -q -- .
